@@ -248,6 +248,7 @@ class Report:
         self.cov["discharged"] = a["discharged"]
         self.cov["theorems"] = a.get("theorems", [])
         self.cov["axioms_used"] = sorted({x for v in a.get("axioms", {}).values() for x in v})
+        self.cov["axioms_by_theorem"] = a.get("axioms", {})
         self.cov["checker_cmd"] = "cd /verif/lean && lake build %s && lake env lean Hyeong/Audit/%s.lean  (#print axioms of every registered theorem; thorough tier: lake env leanchecker)" % (
             obligations(self.prop)["module"], self.prop)
         self.cov["trusted_base"] = TRUSTED_BASE
